@@ -15,7 +15,7 @@ def rule(ns, glob, priv, mk, cond):
     return {"ns": ns, "global": glob, "private": priv, "mk": mk, "cond": cond}
 
 
-def random_ruleset(r, nrules, nns, nmarkers, kinds, pglobal=0.2, pprivate=0.2):
+def random_ruleset(r, nrules, nns, nmarkers, kinds, pglobal=0.2, pprivate=0.2, padprob=0.0):
     rules = []
     for i in range(1, nrules + 1):
         k = r.choice(kinds)
@@ -37,6 +37,8 @@ def random_ruleset(r, nrules, nns, nmarkers, kinds, pglobal=0.2, pprivate=0.2):
             earlier = [j + 1 for j, q in enumerate(rules) if q["ns"] == ns]
             c = C(k, r.choice(earlier)) if earlier else C("T")
         rules.append(rule(ns, r.random() < pglobal, r.random() < pprivate, mk, c))
+        if mk and padprob and r.random() < padprob:
+            rules[-1]["pad"] = r.choice([63, 64, 70, 130])
     # namespaces must appear as contiguous runs for "ns" to be the namespace index of the compiled rules:
     # sort by first appearance is not needed (any interleaving is legal: add_string may revisit a namespace)
     return rules
@@ -321,7 +323,7 @@ def c10(res, tier, seed):
         for hi in range(nhist):
             nrules = r.randint(2, 8) if hi % 6 else r.randint(65, 75)
             nns = r.randint(1, 3) if hi % 5 else r.randint(9, 12)
-            rules = random_ruleset(r, nrules, nns, 2, HIST_KINDS)
+            rules = random_ruleset(r, nrules, nns, 2, HIST_KINDS, padprob=0.15 if nrules < 10 else 0.0)
             scans = []
             for k in range(r.randint(2, 6) if tier == "quick" else r.randint(2, 12)):
                 kind = r.choice(["pe", "elf", "text", "text", "empty"])
